@@ -47,6 +47,7 @@
 #define OPS_LEN_LONGFP 0x00002000 /* long double (f, F, e, E, g, G, a, A) */
 #define OPS_SPEC_UPPER_CASE 0x00004000 /* specifier is tall */
 #define OPS_FORCE_PREFIX 0x00008000    /* 0x prefix even for zero (%p) */
+#define OPS_IS_CHAR 0x00010000         /* print_s prints a single char (%c) */
 
 /**
  * Options for print_s
@@ -78,10 +79,21 @@ static int print_s(void (*printchar_handler)(void *d, int c),
     int pc, len, space_count;
 
     pc = 0;
-    len = (int)strlen(str);
-    if (ops & OPS_PREC_IS_GIVEN)
+    if (ops & OPS_IS_CHAR)
     {
-        len = MIN(max_len, len);
+        /* %c: exactly one character, also when it is '\0' */
+        len = 1;
+    }
+    else if (ops & OPS_PREC_IS_GIVEN)
+    {
+        /* never look beyond the precision: the argument need not be
+         * terminated when it is at least that long */
+        for (len = 0; len < max_len && str[len]; ++len)
+            ;
+    }
+    else
+    {
+        len = (int)strlen(str);
     }
     space_count = width > len ? width - len : 0;
 
@@ -589,7 +601,7 @@ int __printf(void (*printchar_handler)(void *d, int c),
                           &tmp.ca[0],
                           width,
                           precision,
-                          ops);
+                          ops | OPS_IS_CHAR);
             break;
         case 's':
             /* TODO handle (ops & OPS_LEN_LONG) for wchar_t* */
